@@ -942,6 +942,19 @@ def run_jr_oracle(ctx: Ctx, n_cases: int):
 # ----------------------------------------------------------------------------- entry points
 
 def run(ctx: Ctx):
+    from . import util_lie as _UL
+    def _reads(name):
+        import torch as _t
+        def vec(o):
+            d = _UL.ADIM[name]
+            return _t.linspace(-0.7, 0.9, d, dtype=o.dtype).expand(o.shape[:-1] + (d,)).clone()
+        r = {"Adj": lambda o: o.Adj(vec(o)), "AdjT": lambda o: o.AdjT(vec(o)), "Jinvp": lambda o: o.Jinvp(vec(o)),
+             "Retr": lambda o: o.Retr(_UL.pp().LieTensor(vec(o), ltype=getattr(_UL.pp(), _UL.ALG[name] + "_type"))),
+             "add": lambda o: o + vec(o)}
+        if name == "SO3":
+            r["Jr"] = lambda o: o.Jr()
+        return r
+    _UL.persistent_probe(ctx, _reads)
     torch.set_num_threads(2)
     run_ops(ctx, ctx.pick(700, 7000))
     run_laws(ctx, ctx.pick(400, 5000))
